@@ -8,12 +8,12 @@ DRV = "stats"
 CRATE = "hx-stats"
 
 RULE = ("stats: BenchContext::compute_stats on generated sample sets loaded through divan::__verif::stats_from_samples: "
-        "n in 0..40 samples (empty, singleton, even/odd), durations drawn from tie-heavy small ranges, 0, values around "
+        "n in 0..40 samples (empty, singleton, even/odd) plus a few sets of 100..300 (thorough: ..2000) samples, durations drawn from tie-heavy small ranges, 0, values around "
         "2^64 and up to 2^120, sample_size in {0 (only with no samples), 1, 2, 3, 7, 1000, 2^32-1, random}, allocation "
         "info present for a random subset of the indices (distinct figures per index, some keys beyond the last sample, "
         "figures up to 2^63-1), each counter kind absent / constant / per-input (complete or truncated), counts up to "
         "2^64-1; out-of-domain stream: sample_size 0 with samples, u128 overflow of the duration total; periter: one real "
-        "sample through Bencher::with_inputs + input_counter. Non-trivial = at least two samples and an Ok result "
+        "sample through Bencher::with_inputs + input_counter; run: real Bencher runs (history-driven). Non-trivial = at least two samples and an Ok result "
         "(stats), at least two inputs (periter); distinct by input line.")
 ASSUMPTIONS = [
     "sort_unstable_by_key returns some permutation of the samples that is sorted by duration (theorems quantify over all of them)",
@@ -136,6 +136,19 @@ def gen_case(rng, nmax):
     return mk_case(ssize, durs, allocs, counts, uses)
 
 
+def gen_big(rng, n, order):
+    """Many samples (the default sample_count is 100), allocation info and a per-input count for every index."""
+    spread = rng.choice([n // 8 + 1, 10**9])
+    durs = [1000 + rng.randrange(spread) for _ in range(n)]
+    if order == "asc":       # the slowest sample has the highest index
+        durs.sort()
+    elif order == "desc":    # the fastest sample has the highest index
+        durs.sort(reverse=True)
+    allocs = [(i, gen_figs(rng, i)) for i in range(n)]
+    counts = [[100 * (i + 1) + rng.randrange(7) for i in range(n)], [], [rng.randrange(1000)], []]
+    return mk_case(rng.choice([1, 3, 16]), durs, allocs, counts, [True, False, False, False])
+
+
 def gen_out_of_domain(rng):
     n = rng.randrange(1, 6)
     counts, uses = gen_counts(rng, n)
@@ -230,6 +243,14 @@ def compare(impl, model):
     return True
 
 
+def compare_run(impl, model):
+    if not (impl.startswith("IN ") and model.startswith("IN ") and " OUT " in impl and " OUT " in model):
+        return False
+    ii, io = impl[3:].split(" OUT ", 1)
+    mi_, mo = model[3:].split(" OUT ", 1)
+    return ii == mi_ and compare(io, mo)
+
+
 # --------------------------------------------------------------------------
 # streams
 # --------------------------------------------------------------------------
@@ -263,6 +284,9 @@ def streams(tier, rng):
     n_main = 1800 if quick else 40000
     nmax = 12
     main = corpus_cases("C05-stats") + list(FIXED)
+    for k, n in enumerate([100, 257, 300] if quick else [100, 101, 255, 256, 257, 300, 513, 1000, 1001, 2000]):
+        for order in (["rand", "asc", "desc"][k % 3:][:1] if quick else ["rand", "asc", "desc"]):
+            main.append(gen_big(rng, n, order))
     while len(main) < n_main:
         main.append(gen_case(rng, 40 if rng.random() < 0.03 else nmax))
     ood = corpus_cases("C05-ood") + ["0 5 - ||| 0000", "0 1,2,3 0:1:2:3:4:5:6:7:8:9:10 4||| 0000",
@@ -274,6 +298,11 @@ def streams(tier, rng):
         s = rng.choice([1, 2, 3, 5, 8, 16, 33, 64])
         per.append(f"{s} " + ",".join(str(rng.choice([rng.randrange(100), rng.getrandbits(64), U64, 0, rng.getrandbits(32)]))
                                       for _ in range(s)))
+
+    runs = ["0 2 1 0 0 1", "2 0 1 2 1 3", "1 1 1 0 0 1", "3 2 1 2 1 7", "4 1 2 3 1 5", "5 3 1 1 0 9", "2 1 3 3 1 4"]
+    while len(runs) < (120 if quick else 2500):
+        runs.append(f"{rng.choice([0, 1, 2, 3, 4, 5, 8, 20])} {rng.choice([0, 1, 1, 2, 3, 8])} {rng.choice([1, 1, 2, 3])} "
+                    f"{rng.randrange(4)} {rng.randrange(2)} {rng.randrange(1000)}")
 
     def nt(c, m):
         return m.startswith("ok ") and c.split(" ")[1].count(",") >= 1
@@ -290,6 +319,12 @@ def streams(tier, rng):
         Stream("out-of-domain-release", "stats_rel", ood, compare=compare, nontrivial=lambda c, m: False, model_input=mi,
                release=True),
         Stream("per-input-counter-stored", "periter", per, nontrivial=lambda c, m: "," in c),
+        Stream("real-runs-debug", "run", runs, compare=compare_run, model_input=mi,
+               nontrivial=lambda c, m: m.startswith("IN ") and m.split(" ")[2].count(",") >= 1,
+               describe="real Bencher runs (sample_count, sample_size, threads 1..3, constant / per-input counters, allocating "
+                        "or not, AllocProfiler installed): compute_stats on what the run recorded; model driven by the recording"),
+        Stream("real-runs-release", "run_rel", runs[: len(runs) // 2], compare=compare_run, model_input=mi, release=True,
+               nontrivial=lambda c, m: m.startswith("IN ") and m.split(" ")[2].count(",") >= 1),
     ]
 
 
